@@ -788,7 +788,8 @@ def judge(ctx, ob, replay, model_ops=None):
         ctx.known(FINDING, "%s rewrites a container reachable through an OrderedDict / tuple subclass (%s)" % (ob.label, details[0].get("path_kinds")))
         return True
     body = dict(replay)
-    body.update({"kind": "oracle", "op": ob.label, "outcome": ob.outcome, "changes": details[:6]})
+    body.setdefault("kind", "oracle")
+    body.update({"op": ob.label, "outcome": ob.outcome, "changes": details[:6]})
     ctx.violation("%s modified %s" % (ob.label, ", ".join(sorted({d["what"] for d in details}))), body)
     return False
 
@@ -1512,12 +1513,58 @@ def bracket_cases(ctx):
         p.save(cfg, os.path.join(root, "out.yaml"), overwrite=True)
 
     cases.append(("save:multifile invalid", mk(), save_fail, {}))
+    # Path OBJECTS resolved against a directory other than the process cwd (seed C08-B): the cwd to return to
+    # is the process cwd at call time, not the one recorded in the Path
+    from jsonargparse import Path
+    from jsonargparse.typing import Path_fr
+
+    work = os.path.join(root, "work")
+    os.makedirs(work)
+    home = os.getcwd()
+    good_obj = Path("good.yaml", mode="fr", cwd=other)
+    bad_obj = Path("bad.yaml", mode="fr", cwd=other)
+    os.chdir(root)
+    early = Path(os.path.join("elsewhere", "good.yaml"), mode="fr")
+    os.chdir(home)
+    out_obj = Path("out2.yaml", mode="fc", cwd=work)
+
+    def mk_path():
+        p = ArgumentParser(exit_on_error=False)
+        p.add_argument("--p", type=Path_fr)
+        p.add_argument("--l", type=List[Path_fr], default=[])
+        return p
+
+    def ctx_use(p):
+        with good_obj.relative_path_context():
+            pass
+
+    def ctx_use_raise(p):
+        with good_obj.relative_path_context():
+            raise RuntimeError("inside")
+
+    pobj = Path_fr("good.yaml", cwd=other)
+    cases2 = [
+        ("parse_path:Path object resolved elsewhere", mk(), lambda p: p.parse_path(good_obj), home),
+        ("parse_path:Path object resolved elsewhere, invalid content", mk(), lambda p: p.parse_path(bad_obj), home),
+        ("parse_path:Path object created before a chdir", mk(), lambda p: p.parse_path(early), work),
+        ("save:to a Path object resolved elsewhere", mk(), lambda p: p.save(p.parse_args(["--n=[5]"]), out_obj, overwrite=True), home),
+        ("Path.relative_path_context", mk(), ctx_use, home),
+        ("Path.relative_path_context:raising body", mk(), ctx_use_raise, home),
+        ("parse_object:Path value resolved elsewhere", mk_path(), lambda p: p.parse_object({"p": pobj, "l": [pobj, pobj]}), home),
+        ("dump:Path value resolved elsewhere", mk_path(), lambda p: p.dump(p.parse_object({"p": pobj, "l": [pobj]})), home),
+    ]
     for label, p, fn, _ in cases:
         ob = observe(p, label, lambda p=p, fn=fn: fn(p), {}, track_defaults=False)
         ctx.hist("bracket-case", ob.outcome if ob.outcome == "ok" else "raises")
         judge(ctx, ob, {"kind": "bracket", "case": label, "only_op": label})
+    for label, p, fn, start in cases2:
+        os.chdir(start)
+        ob = observe(p, label, lambda p=p, fn=fn: fn(p), {}, track_defaults=False)
+        os.chdir(home)
+        ctx.hist("bracket-case", ob.outcome if ob.outcome == "ok" else "raises")
+        judge(ctx, ob, {"kind": "bracket", "case": label, "only_op": label})
     shutil.rmtree(root, ignore_errors=True)
-    return [c[0] for c in cases]
+    return [c[0] for c in cases + cases2]
 
 
 # ====================================================================== findings
@@ -1579,7 +1626,7 @@ def run(ctx: Ctx):
 
     phases["corpus_and_brackets"] = round(ctx.elapsed(), 1)
     # ---- generated scenarios
-    n_sc = ctx.budget(100, 900) * (2 if boost > 1 else 1)
+    n_sc = ctx.budget(100, 1500) * (2 if boost > 1 else 1)
     for i in range(n_sc):
         if not ctx.thorough and ctx.elapsed() > 60:
             ctx.extra["stopped_early_after_scenarios"] = i
@@ -1630,7 +1677,7 @@ def replay(ctx: Ctx, body):
 
         p = subprocess.run(["/venv/bin/python", os.path.join(VERIF, r["demo"])], env=dict(os.environ, PYTHONPATH=REPO))
         return 1 if p.returncode else 0
-    if r.get("kind") == "bracket":
+    if r.get("kind") == "bracket" or "case" in r:
         before = len(ctx.violations)
         bracket_cases(ctx)
         for v in ctx.violations[before:]:
